@@ -158,6 +158,11 @@ def run(tier, seed):
     drs = [e["dround"] for t in tr for e in t if e.get("ev") == "Deliver" and e.get("rule") in ("QC", "JD")]
     o.extra["max_decision_round_observed"] = max(drs) if drs else 0
     o.extra["enumeration_complete_for_n4"] = bool(thorough)
+    # component tier: real core/consensus/qbft.Consensus clusters on in-memory libp2p (mocknet) inside testing/synctest
+    # (virtual time), with crashes, loss, late starters and a Byzantine member; validated by QBFTClusterTrace (cluster-
+    # level invariants incl. BoundedDecision) and QBFTNodeTrace (each member's sniffed transcript against QBFT.tla)
+    import conscluster
+    conscluster.stage(o, tier, seed)
     return vlib.finish(o, "model_checking", RULE,
                        ["time is virtual (clockwork.FakeClock, 50 ms ticks); timers are the real core/consensus/timer objects",
                         "latencies <= 300 ms < 1/3 of the shortest round timeout (1 s); start offsets <= 950 ms < one round",
